@@ -28,6 +28,8 @@ pub enum Kind {
     Tiny { len: u8 },
     /// symlink to file index (earlier entry), named like its target
     LinkFile { target: u16 },
+    /// symlink whose target does not exist (named like a log): contributes nothing, must not end the walk
+    Dangling,
 }
 
 #[derive(Clone, Debug, Serialize, Deserialize, PartialEq, Eq)]
@@ -67,6 +69,7 @@ fn file_name(f: &FileEnt, all: &[FileEnt]) -> String {
         Kind::Tar => format!("{}.tar", f.stem),
         Kind::Utmp => format!("{}.wtmp", f.stem),
         Kind::Tiny { .. } => format!("{}.log", f.stem),
+        Kind::Dangling => format!("{}-gone.log", f.stem),
         Kind::LinkFile { target } => {
             // link name classifies like its target: reuse the target's suffixes with another stem
             let t = &all[*target as usize % all.len().max(1)];
@@ -189,6 +192,12 @@ fn build(case: &Case, base: &Path) -> Result<Built, String> {
             Kind::Tiny { len } => {
                 std::fs::write(&p, &b"2020\n"[..(*len as usize % 6).min(5)]).map_err(|e| e.to_string())?;
             }
+            Kind::Dangling => {
+                std::os::unix::fs::symlink(root.join(format!("does-not-exist-{}", i)), &p).map_err(|e| e.to_string())?;
+                has_symlink = true;
+                real_paths.push(None);
+                continue;
+            }
             Kind::LinkFile { target } => {
                 let ti = *target as usize % case.files.len();
                 let tp = match real_paths.get(ti).and_then(|x| x.clone()) {
@@ -226,7 +235,11 @@ fn build(case: &Case, base: &Path) -> Result<Built, String> {
         ents.sort();
         for n in ents {
             let p = d.join(&n);
-            let md = std::fs::metadata(&p).map_err(|e| e.to_string())?; // follows symlinks
+            let md = match std::fs::metadata(&p) {
+                // follows symlinks; a dangling link is not a file
+                Ok(md) => md,
+                Err(_) => continue,
+            };
             if md.is_dir() {
                 walk(&p, out, skipped)?;
             } else if md.is_file() {
@@ -249,7 +262,7 @@ impl Property for C15 {
         "C15"
     }
     fn rule(&self) -> String {
-        "case = generated directory tree (depth 0..3, 0..12 files; names with spaces, non-ASCII, leading dots; text logs under .log/.1/no suffix and .gz/.xz/.bz2/.lz4, tar archives, utmp files, text logs under known non-log suffixes, empty and tiny files, symlinks to files named like their targets, symlinks in the root to sub-directories; a quarter of the files are named like a sibling directory plus a character that sorts below '/' so that string order and component-wise path order differ); every file carries messages at the same instants so the expansion order is observable in the output. oracle (differential): stdout(s4 DIR) == stdout(s4 <reference expansion>) where the reference expansion is depth-first with names sorted per directory, symlinks followed, known non-log names removed; stdout(s4 a - b <<< c,d) == stdout(s4 a c d b) for a generated split; a non-log-suffixed file named explicitly prints its messages. non-trivial = >=2 files with cross-file ties and (nesting >=2 or a symlink or a skipped suffix); distinct = hash(case).".into()
+        "case = generated directory tree (depth 0..3, 0..12 files; names with spaces, non-ASCII, leading dots; text logs under .log/.1/no suffix and .gz/.xz/.bz2/.lz4, tar archives, utmp files, text logs under known non-log suffixes, empty and tiny files, symlinks to files named like their targets, dangling symlinks, symlinks in the root to sub-directories; a quarter of the files are named like a sibling directory plus a character that sorts below '/' so that string order and component-wise path order differ); every file carries messages at the same instants so the expansion order is observable in the output. oracle (differential): stdout(s4 DIR) == stdout(s4 <reference expansion>) where the reference expansion is depth-first with names sorted per directory, symlinks followed, known non-log names removed; stdout(s4 a - b <<< c,d) == stdout(s4 a c d b) for a generated split; a non-log-suffixed file named explicitly prints its messages. non-trivial = >=2 files with cross-file ties and (nesting >=2 or a symlink or a skipped suffix); distinct = hash(case).".into()
     }
     fn assumptions(&self) -> Vec<String> {
         vec!["symlink names are chosen so that link and target classify identically (which name governs is not stated by the property)".into(), "directory symlinks never create cycles".into()]
@@ -273,6 +286,7 @@ impl Property for C15 {
             1 => Just(Kind::Utmp),
             1 => (0u8..6).prop_map(|len| Kind::Tiny { len }),
             2 => any::<u16>().prop_map(|target| Kind::LinkFile { target }),
+            1 => Just(Kind::Dangling),
         ];
         let file = (any::<u16>(), prop::sample::select(STEMS.to_vec()), kind, any::<u8>(), prop::option::weighted(0.25, (any::<u16>(), any::<u8>()))).prop_map(|(dir, stem, kind, n, clash)| FileEnt { dir, stem: format!("{}{}", stem, n % 7), kind, clash });
         (dirs, prop::collection::vec(file, 0..12), prop::collection::vec((prop::sample::select(vec!["lnk", "zz link", "0first"]).prop_map(|s| s.to_string()), any::<u16>()), 0..2), (any::<u16>(), any::<u16>()), 1u8..4)
